@@ -64,11 +64,18 @@ TYPE_DECLS = {
     "IotaLen": "const (\n\tiotaZero = iota\n\tIotaLen\n\tiotaTwo\n)",
     "ConstArr": "type ConstArr struct {\n\tA [ArrLen]int `json:\"a\"`\n\tB [(TypedLen)]string `json:\"b\"`\n\tC [ExprLen]byte `json:\"c\"`\n"
                 "\tD [2 * ArrLen]Plain `json:\"d\"`\n\tE [IotaLen]*Plain `json:\"e\"`\n\tF [3]int `json:\"f\"`\n}",
+    # enums whose values are declared several names to a spec / in an iota block with blanks and several names
+    "Unit": "type Unit string\n\nconst (\n\tCelsius, Fahrenheit Unit = \"C\", \"F\"\n\tKelvin Unit = \"K\"\n)",
+    "Grade": "type Grade int\n\nconst (\n\t_ Grade = iota\n\tGradeA, GradeB = Grade(iota), Grade(iota + 10)\n\tGradeC, GradeD\n)",
+    # a model whose field tags carry keys of other libraries around (or instead of) the keys gleece reads
+    "GeoTagged": "type GeoTagged struct {\n\tOutline string `geojson:\"geometry\" hjson:\"outline\"`\n"
+                 "\tLabel string `geojson:\"label\" hjson:\"label\" json:\"label\" prevalidate:\"trim\" myvalidate:\"x\" validate:\"required\"`\n"
+                 "\tRaw string `json:raw`\n\tE Unit `jsonschema:\"e\" validatex:\"y\" json:\"e\"`\n}",
     "Tagged": None,  # built with a random validator tag
 }
 DEPS = {"DeepErr": ["MyErr"], "MutA": ["MutB"], "MutB": ["MutA"], "Emb": ["Plain", "SelfRec", "lower"], "Deep": ["Plain"],
         "AliasA": ["AliasB"], "NamedSlice": ["Plain"], "GenEmb": ["Plain"], "HasGenErr": ["GenErr"], "ExprLen": ["ArrLen"],
-        "ConstArr": ["ArrLen", "TypedLen", "ExprLen", "IotaLen", "Plain"], "Tagged": ["Color"]}
+        "ConstArr": ["ArrLen", "TypedLen", "ExprLen", "IotaLen", "Plain"], "Tagged": ["Color"], "GeoTagged": ["Unit"]}
 
 HOSTILE_TAGS = ["oneof=fixed 'wont fix", "oneof='a b' c", "oneof='", "oneof=''", "enum='", "min=abc", "max=", "len=-1", "oneof=", "gt=", "lte=1e400", "uniqueItems=maybe", "enum=|", ",,,",
                 "required,,min", "max=99999999999999999999999", "minItems=x", "maxItems=-3", "pattern=(", "len=1.5",
@@ -78,13 +85,13 @@ BODY_TYPES = ["GenErr[string]", "GenErr[Plain]", "GenErrLast[int]", "GenEmb[int]
               "[ArrLen]Plain", "[ExprLen]int", "ConstArr", "Mono[Plain]", "Mono[[]int]", "Mono[Mono[int]]", "Mono[*Plain]", "Mono[map[string]Plain]", "Plain", "Box[int]", "Pair[string, Plain]", "Inline", "WithFunc", "WithChan", "WithIface", "WithArray",
               "MutA", "SelfRec", "Deep", "Emb", "NamedSlice", "NamedMap", "[]Plain", "*Plain", "map[string]Plain",
               "[]*[]Plain", "Iface", "Tagged", "[4]Plain", "map[int]Plain", "any", "struct{ X int }", "FuncType",
-              "[]byte", "time.Time", "time.Duration", "*time.Time"]
+              "[]byte", "time.Time", "time.Duration", "*time.Time", "GeoTagged", "[]GeoTagged"]
 SCALAR_TYPES = ["string", "int", "Color", "Level", "Ratio", "Flag", "EmptyEnum", "AliasA", "Named", "[]string", "[]Color",
                 "*int", "uint8", "float32", "complex128", "rune", "byte", "uintptr", "[]int", "*Color", "[2]string",
-                "time.Time", "Plain", "any", "error", "map[string]string", "**string", "[]*int", "[ArrLen]string", "[IotaLen]int"]
+                "time.Time", "Plain", "any", "error", "map[string]string", "**string", "[]*int", "[ArrLen]string", "[IotaLen]int", "Unit", "Grade", "[]Unit"]
 RET_TYPES = ["GenErr[string]", "GenSkip[Plain]", "HasGenErr", "[TypedLen]int", "ConstArr", "Mono[Plain]", "Mono[Color]", "Box[Plain]", "", "Plain", "*Plain", "[]Plain", "Box[string]", "MutA", "SelfRec", "map[string]Plain", "Color", "[]Color",
              "string", "int", "any", "Iface", "Emb", "Deep", "NamedSlice", "*[]Plain", "[]byte", "time.Time", "Tagged",
-             "Inline", "WithIface", "chan int", "func()", "[3]int", "struct{ A int }"]
+             "Inline", "WithIface", "chan int", "func()", "[3]int", "struct{ A int }", "GeoTagged", "Unit", "[]Grade"]
 ERR_TYPES = ["error", "error", "error", "MyErr", "*MyErr", "NotErr", "Plain", "SelfErr", "DeepErr", "GenErr[string]"]
 
 MALFORMED_ANN = [
@@ -183,9 +190,9 @@ def used_names(t):
     return set(n for n in TYPE_DECLS if re.search(r"\b%s\b" % re.escape(n), t))
 
 
-SAFE_SCALARS = ["string", "int", "Color", "Level", "Named", "*int", "float32", "[]string"]
-SAFE_BODIES = ["Plain", "[]Plain", "*Plain", "SelfRec", "MutA", "Emb", "NamedSlice", "Tagged"]
-SAFE_RETS = ["", "Plain", "*Plain", "[]Plain", "string", "Color", "SelfRec", "Tagged", "map[string]Plain"]
+SAFE_SCALARS = ["string", "int", "Color", "Level", "Named", "*int", "float32", "[]string", "Unit", "Grade"]
+SAFE_BODIES = ["Plain", "[]Plain", "*Plain", "SelfRec", "MutA", "Emb", "NamedSlice", "Tagged", "GeoTagged"]
+SAFE_RETS = ["", "Plain", "*Plain", "[]Plain", "string", "Color", "SelfRec", "Tagged", "map[string]Plain", "GeoTagged", "Unit"]
 
 
 def hostile_file(rng, k):
@@ -445,8 +452,8 @@ def param_sweep_projects(rng, start, tier):
 
 def always_swept(t):
     """Shapes the quick tier sweeps in full: instantiated generics of the Mono/Gen* families (and their users), and
-    fixed arrays whose length is a named constant."""
-    return bool(re.search(r"Mono|Gen|Len\b|ConstArr", t))
+    fixed arrays whose length is a named constant, models with foreign tag keys, enums with several names per spec."""
+    return bool(re.search(r"Mono|Gen|Len\b|ConstArr|GeoTagged|Unit|Grade", t))
 
 
 def type_sweep_projects(rng, start, tier):
@@ -467,6 +474,190 @@ def type_sweep_projects(rng, start, tier):
         src, files = single_use_file(k, role, t, lay)
         out.append({"source": src, "files": files, "layout": lay if files else "single", "k": k, "config_kind": "valid",
                     "single_use": [role, t], "command": ["generate", "spec-and-routes"], "force_valid_config": True})
+    return out
+
+
+# ---------------------------------------------------------------- struct tags with foreign keys
+
+# Struct tags are conventionally `key:"value" key:"value"`; gleece reads the keys json and validate.  Real projects carry
+# keys of other libraries next to them, among them keys that have json / validate as a SUFFIX (geojson, hjson,
+# prevalidate) or as a PREFIX (jsonschema, validatex).  A pattern is a sequence of letters, one tag key each:
+#   S  the next key that ends in the target     s  the first such key again
+#   P  the next key that starts with the target R  the target key itself     F  an unrelated key
+TAG_TARGETS = {"json": (["geojson", "hjson", "xjson"], ["jsonschema", "json5", "jsonx"]),
+               "validate": (["prevalidate", "myvalidate", "x-validate"], ["validatex", "validate_if", "validate2"])}
+TAG_FOREIGN = ["xml", "yaml", "db", "bson", "form", "binding"]
+TAG_PATTERNS = ["S", "SS", "SSS", "SR", "RS", "SSR", "RSS", "SRS", "P", "PP", "PR", "RPP", "SPS", "PSRSP", "Ss", "FSSF", "SFS",
+                "SSSR", "PSS", "F", "FF"]
+
+# Tag bodies that are not in the conventional form (the compiler accepts any string literal as a tag)
+MALFORMED_TAGS = [
+    'json:id', 'json:"id', 'json: "id"', 'json', ':"x"', 'json:"a"validate:"required"', 'json:"a"\tvalidate:"required"',
+    'json:"a"   validate:"required"', ' json:"a"', 'json:"a" ', 'json:""', 'json:","', 'json:",omitempty"', 'json:"-,"',
+    'validate:""', 'validate:"', 'json:"a\\"b"', 'doc:"see json:\\"x\\" there" json:"real"', 'json:"a" json:"b"',
+    'validate:"required" validate:"min=1"', 'geojson:"g', 'geojson:"a" hjson:', 'geojson:"a" hjson:"b', 'json:"日本"',
+    'json:"a b"', '"json":"a"', "json:'a'", 'JSON:"a" Validate:"required"', 'json:"a,omitempty,string" validate:"omitempty,min=1"',
+    '', ' ', 'json:"a"; validate:"required"', 'json:"a",validate:"required"', 'geojson:hjson:json:"a"', 'json:json:"a"',
+    'prevalidate:myvalidate:validate:"required"', 'json:"validate:\\"required\\""', 'validate:"json:\\"x\\""',
+    'geojson:"a"hjson:"b"json:"c"', 'geojson:"a"\thjson:"b"\tjson:"c"', 'xjson:"" hjson:"" json:""',
+]
+
+
+def pattern_tag(target, pattern, i):
+    """The tag body the pattern stands for.  Keys that resemble json carry a name, keys that resemble validate a rule;
+    the OTHER key gleece reads is absent, in front or at the back, by turns."""
+    suffixed, prefixed = TAG_TARGETS[target]
+    ns = npx = nf = 0
+    parts = []
+    for j, ch in enumerate(pattern):
+        if ch == "S":
+            key, ns = suffixed[ns % len(suffixed)], ns + 1
+        elif ch == "s":
+            key = suffixed[0]
+        elif ch == "P":
+            key, npx = prefixed[npx % len(prefixed)], npx + 1
+        elif ch == "R":
+            key = target
+        else:
+            key, nf = TAG_FOREIGN[(i + nf) % len(TAG_FOREIGN)], nf + 1
+        val = ("required" if ch == "R" else "trim") if target == "validate" else "n%d_%d" % (i, j)
+        parts.append('%s:"%s"' % (key, val))
+    other = 'validate:"required"' if target == "json" else 'json:"o%d"' % i
+    if i % 3 == 1:
+        parts.insert(0, other)
+    elif i % 3 == 2:
+        parts.append(other)
+    return " ".join(parts)
+
+
+def tag_literal(body, form="raw"):
+    """The Go literal of a tag: a raw string, or - when asked for - an interpreted string."""
+    if form == "raw" and "`" not in body:
+        return "`" + body + "`"
+    return json.dumps(body)
+
+
+def tag_file(k, fields):
+    """A well-formed project whose model struct carries the given (go type, tag body, literal form) fields; the struct is
+    the body and the result of one route and a field of a second model (the result of another route)."""
+    body = "\n".join("\tF%d %s %s" % (i, t, tag_literal(tag, form)) for i, (t, tag, form) in enumerate(fields))
+    return ("package hctl\n\nimport (\n\t\"github.com/gopher-fleece/runtime\"\n)\n\n// @Tag(G%d)\n// @Route(/g%d)\n"
+            "type HCtl%d struct {\n\truntime.GleeceController\n}\n\ntype Shape struct {\n\tId string `json:\"id\" validate:\"required\"`\n%s\n}\n\n"
+            "type Layer struct {\n\tName string `json:\"name\"`\n\tShapes []Shape `json:\"shapes\"`\n}\n\n"
+            "// @Method(POST)\n// @Route(/shapes)\n// @Body(b)\nfunc (c *HCtl%d) Put(b Shape) (Shape, error) {\n\tpanic(\"x\")\n}\n\n"
+            "// @Method(GET)\n// @Route(/layers)\nfunc (c *HCtl%d) Layers() ([]Layer, error) {\n\tpanic(\"x\")\n}\n"
+            % (k, k, k, body, k, k))
+
+
+def tag_sweep_projects(rng, start, tier):
+    """Every key pattern for both keys gleece reads, and every unconventional tag body, on fields of a model struct:
+    a few per project, every project with both OpenAPI versions, through the commands that build the document
+    (thorough: one tag per project, every command)."""
+    types = ["string", "int", "[]string", "*string"]
+    pats = [(types[i % 4], pattern_tag(tg, p, i), "raw") for i, (tg, p) in
+            enumerate((tg, p) for p in TAG_PATTERNS for tg in sorted(TAG_TARGETS))]
+    odd = [(types[i % 2], b, "interp" if i % 7 == 6 else "raw") for i, b in enumerate(MALFORMED_TAGS)]
+    rng.shuffle(pats)
+    rng.shuffle(odd)
+    per_p, per_o = (4, 3) if tier == "quick" else (1, 1)
+    chunks = [pats[i:i + per_p] for i in range(0, len(pats), per_p)] + [odd[i:i + per_o] for i in range(0, len(odd), per_o)]
+    out = []
+    for n, chunk in enumerate(chunks):
+        for v in ("3.0.0", "3.1.0"):
+            cmds = [COMMANDS[(n + (v == "3.1.0")) % 2]] if tier == "quick" else COMMANDS
+            for cmd in cmds:
+                k = start + len(out)
+                out.append({"source": tag_file(k, chunk), "k": k, "config_kind": "valid", "tag_sweep": [list(c) for c in chunk],
+                            "openapi": v, "command": cmd, "force_valid_config": True})
+    return out
+
+
+# ---------------------------------------------------------------- enums declared by every legal shape of constant spec
+
+# name -> (underlying type, [top-level declarations of the values], extra declarations).  The enum is always `Unit`.
+ENUM_SHAPES = {
+    "one-name-per-spec": ("string", ['const (\n\tCelsius Unit = "C"\n\tFahrenheit Unit = "F"\n)'], ""),
+    "multi-name-typed": ("string", ['const (\n\tCelsius, Fahrenheit Unit = "C", "F"\n\tKelvin Unit = "K"\n)'], ""),
+    "multi-name-last": ("string", ['const (\n\tKelvin Unit = "K"\n\tCelsius, Fahrenheit, Rankine Unit = "C", "F", "R"\n)'], ""),
+    "multi-name-single-decl": ("string", ['const Celsius, Fahrenheit, Kelvin Unit = "C", "F", "K"'], ""),
+    "multi-name-converted": ("string", ['const Celsius, Fahrenheit = Unit("C"), Unit("F")'], ""),
+    "multi-name-blank-first": ("string", ['const _, Fahrenheit Unit = "C", "F"'], ""),
+    "multi-name-mixed-types": ("string", ['const Celsius, other, Fahrenheit = Unit("C"), 5, Unit("F")'], ""),
+    "multi-name-int": ("int", ['const (\n\tCelsius, Fahrenheit Unit = 1, 2\n)'], ""),
+    "iota-plain": ("int", ['const (\n\tCelsius Unit = iota\n\tFahrenheit\n\tKelvin\n)'], ""),
+    "iota-blank-skip": ("int", ['const (\n\t_ Unit = iota\n\tCelsius\n\t_\n\tKelvin\n)'], ""),
+    "iota-expression": ("uint16", ['const (\n\tCelsius Unit = 1 << (iota + 1)\n\tFahrenheit\n\tKelvin\n)'], ""),
+    "iota-multi-name": ("int", ['const (\n\tCelsius, Fahrenheit Unit = iota, iota + 10\n\tKelvin, Rankine\n)'], ""),
+    "iota-late-start": ("int", ['const (\n\tother = "x"\n\tCelsius Unit = iota\n\tFahrenheit\n)'], ""),
+    "implicit-repetition": ("string", ['const (\n\tCelsius Unit = "C"\n\tFahrenheit\n\tKelvin\n)'], ""),
+    "untyped-converted": ("string", ['const (\n\tCelsius = Unit("C")\n\tFahrenheit = Unit("F")\n)'], ""),
+    "split-blocks": ("string", ['const (\n\tCelsius Unit = "C"\n)', 'const Fahrenheit Unit = "F"',
+                                'const (\n\tKelvin Unit = "K"\n\tunrelated = 3\n)'], ""),
+    "split-multi-name": ("string", ['const Celsius Unit = "C"', 'const (\n\tother, Fahrenheit = 1, Unit("F")\n)',
+                                    'const Kelvin, Rankine Unit = "K", "R"'], ""),
+    "derived": ("string", ['const (\n\tCelsius Unit = "C"\n\tFahrenheit Unit = Celsius + "F"\n\tKelvin = Fahrenheit\n)'], ""),
+    "interleaved-enums": ("string", ['const (\n\tCelsius Unit = "C"\n\tNorth Side = "N"\n\tFahrenheit Unit = "F"\n\tSouth Side = "S"\n)'],
+                          "type Side string"),
+    "interleaved-multi-name": ("string", ['const (\n\tCelsius, North = Unit("C"), Side("N")\n\tSouth, Fahrenheit = Side("S"), Unit("F")\n)'],
+                               "type Side string"),
+    "negative-and-large": ("int64", ['const (\n\tCelsius Unit = -1\n\tFahrenheit Unit = 0\n\tKelvin Unit = 1 << 40\n)'], ""),
+    "rune-values": ("uint8", ["const (\n\tCelsius Unit = 'C'\n\tFahrenheit, Kelvin Unit = 'F', 'K'\n)"], ""),
+    "float-values": ("float64", ['const Celsius, Fahrenheit Unit = 0.5, 1e3'], ""),
+    "bool-values": ("bool", ['const Celsius, Fahrenheit Unit = true, false'], ""),
+    "local-constant": ("string", ['const Celsius Unit = "C"'],
+                       'func localUnit() Unit {\n\tconst Local, Other Unit = "L", "O"\n\tif Other == "" {\n\t\treturn Other\n\t}\n\treturn Local\n}'),
+    "commented": ("string", ['const (\n\t// Celsius is documented\n\tCelsius Unit = "C" // and trailed\n\t/* block */ Fahrenheit, Kelvin Unit = "F", "K" // two\n)'], ""),
+    "unexported-values": ("string", ['const (\n\tcelsius, Fahrenheit Unit = "c", "F"\n)'], ""),
+    "duplicate-values": ("string", ['const Celsius, Centigrade Unit = "C", "C"'], ""),
+}
+ENUM_ROLES = ["query", "path", "header", "ret", "field", "slice", "pointer-field"]
+
+
+def enum_project(k, shape, roles, layout):
+    """A well-formed project whose enum `Unit` is declared by the given shape and reached through the given roles.
+    single: one file; scatter: the type, every constant declaration and the model in files of their own."""
+    under, consts, extra = ENUM_SHAPES[shape]
+    routes, model = [], []
+    for r in roles:
+        if r in ("query", "header"):
+            routes.append("// @Method(GET)\n// @Route(/%s)\n// @%s(unit)\nfunc (c *HCtl%d) By%s(unit Unit) (string, error) {\n\tpanic(\"x\")\n}"
+                          % (r, r.capitalize(), k, r.capitalize()))
+        elif r == "path":
+            routes.append("// @Method(GET)\n// @Route(/path/{unit})\n// @Path(unit)\nfunc (c *HCtl%d) ByPath(unit Unit) (string, error) {\n\tpanic(\"x\")\n}" % k)
+        elif r == "slice":
+            routes.append("// @Method(GET)\n// @Route(/slice)\n// @Query(units)\nfunc (c *HCtl%d) BySlice(units []Unit) ([]Unit, error) {\n\tpanic(\"x\")\n}" % k)
+        elif r == "ret":
+            routes.append("// @Method(GET)\n// @Route(/ret)\nfunc (c *HCtl%d) Current() (Unit, error) {\n\tpanic(\"x\")\n}" % k)
+        elif r == "field":
+            model.append("\tUnit Unit `json:\"unit\" validate:\"required\"`")
+        elif r == "pointer-field":
+            model.append("\tAlt *Unit `json:\"alt\"`\n\tAll map[string][]Unit `json:\"all\"`")
+    decls = [("unit_t", "type Unit %s" % under)] + [("unit_c%d" % i, c) for i, c in enumerate(consts)]
+    if extra:
+        decls.append(("unit_x", extra))
+    if model:
+        decls.append(("reading", "type Reading struct {\n\tValue float64 `json:\"value\"`\n%s\n}" % "\n".join(model)))
+        routes.append("// @Method(POST)\n// @Route(/readings)\n// @Body(b)\nfunc (c *HCtl%d) Put(b Reading) (Reading, error) {\n\tpanic(\"x\")\n}" % k)
+    ctrl = "// @Tag(E%d)\n// @Route(/e%d)\ntype HCtl%d struct {\n\truntime.GleeceController\n}" % (k, k, k)
+    return lay_out(layout, ctrl, decls, routes)
+
+
+def enum_sweep_projects(rng, start, tier):
+    """Every shape of constant declaration: reached through all roles at once (one file) and through one role alone
+    (every declaration in a file of its own); thorough: every shape x role x layout.  The command rotates."""
+    plan = []
+    for i, shape in enumerate(sorted(ENUM_SHAPES)):
+        if tier == "quick":
+            plan.append((shape, list(ENUM_ROLES), "single"))
+            plan.append((shape, [ENUM_ROLES[(i + rng.randrange(len(ENUM_ROLES))) % len(ENUM_ROLES)]], "scatter"))
+        else:
+            plan += [(shape, rs, lay) for rs in [list(ENUM_ROLES)] + [[r] for r in ENUM_ROLES] for lay in LAYOUTS]
+    out = []
+    for n, (shape, roles, lay) in enumerate(plan):
+        k = start + len(out)
+        src, files = enum_project(k, shape, roles, lay)
+        out.append({"source": src, "files": files, "layout": lay if files else "single", "k": k, "config_kind": "valid",
+                    "enum_shape": [shape, roles], "command": COMMANDS[(n + rng.randrange(2)) % len(COMMANDS)], "force_valid_config": True})
     return out
 
 
@@ -601,7 +792,7 @@ def template_sweep_projects(rng, start, tier, base):
     """Every kind of templateExtensions / templateOverrides entry once (thorough: on every engine), on a well-formed
     project, through the CLI."""
     out = []
-    kinds = TEMPLATE_KINDS_REJECTED + TEMPLATE_KINDS_ACCEPTED
+    kinds = TEMPLATE_KINDS_REJECTED + TEMPLATE_KINDS_ACCEPTED + TEMPLATE_KINDS_KNOWN
     for i, kind in enumerate(kinds):
         for engine in ([ENGINES[(i + rng.randrange(5)) % 5]] if tier == "quick" else ENGINES):
             k = start + len(out)
@@ -649,6 +840,8 @@ TEMPLATE_KINDS_REJECTED = ["ext-unknown", "ext-unreadable", "ext-directory", "ex
                            "ovr-unreadable", "ovr-routes-unreadable", "ext-hostile-template", "ovr-hostile-template",
                            "routes-hostile-template"]
 TEMPLATE_KINDS_ACCEPTED = ["ext-valid", "ovr-valid", "ovr-routes-valid"]
+# one deliberate instance per run of the listed class "a template extension that includes itself" (known finding)
+TEMPLATE_KINDS_KNOWN = ["ext-self-including-template"]
 
 
 def engine_template(engine, rel):
@@ -682,6 +875,9 @@ def template_config(rng, conf, kind):
     elif kind == "ext-hostile-template":
         aux["tpl/hostile.hbs"] = rng.choice(HOSTILE_TEMPLATES)
         rc["templateExtensions"] = {ext: "./tpl/hostile.hbs"}
+    elif kind == "ext-self-including-template":
+        aux["tpl/hostile.hbs"] = "{{> ImportsExtension }}\n"
+        rc["templateExtensions"] = {"ImportsExtension": "./tpl/hostile.hbs"}
     elif kind == "ovr-unknown":
         rc["templateOverrides"] = {rng.choice(["NoSuchPartial", "imports", "ImportsExtension", ""]): "./tpl/ok.hbs"}
     elif kind == "ovr-unreadable":
@@ -895,6 +1091,10 @@ def main():
         projects += param_sweep_projects(rng, len(projects), a.tier)
         projects += multi_controller_projects(rng, len(projects), a.tier)
         projects += template_sweep_projects(rng, len(projects), a.tier, base)
+        # the newer sweeps draw from a generator of their own: the projects above stay what they were
+        rng2 = random.Random(seed * 7919 + 14)
+        projects += tag_sweep_projects(rng2, len(projects), a.tier)
+        projects += enum_sweep_projects(rng2, len(projects), a.tier)
         sequences = inproc_sequences(rng, base, a.tier)
     for k, pr in enumerate(projects):
         root = os.path.join(moddir, "p%d" % k)
@@ -908,8 +1108,9 @@ def main():
                 pr["config"], pr["config_kind"] = hostile_config(rng, b)
                 pr["command"] = rng.choice(COMMANDS)
         write_project(root, pr)
-    # only projects that load (compile) are in the property's domain
-    p = run(["go", "vet", "./..."], cwd=moddir, env=GOENV, check=False, timeout=900)
+    # only projects that load (compile) are in the property's domain (a struct tag that reflect.StructTag cannot read is
+    # vet's business, not the compiler's: such projects stay in)
+    p = run(["go", "vet", "-structtag=false", "./..."], cwd=moddir, env=GOENV, check=False, timeout=900)
     bad_pkgs = set(re.findall(r"verifproj/p(\d+)/hctl", p.stderr.decode(errors="replace") + p.stdout.decode(errors="replace")))
     for ln in (p.stderr.decode(errors="replace") + p.stdout.decode(errors="replace")).splitlines():
         m = re.match(r"(?:# )?(?:verifproj/)?p(\d+)/hctl|^p(\d+)/hctl/\w+\.go", ln.strip())
@@ -970,10 +1171,7 @@ def main():
         k, c, r = outcomes[i]
         pr = projects[k] if k >= 0 else {"source": "", "config": "", "command": ["version"]}
         sig = crash_signature(r["out"])
-        hit = None
-        for f in known:
-            if f.get("match", {}).get("signature") and f["match"]["signature"] in sig:
-                hit = f
+        hit = known_hit(known, pr, sig)
         if hit:
             res.known(hit, "%s (%s)" % (hit.get("title", ""), sig[:120]))
             continue
@@ -1011,6 +1209,25 @@ def main():
                     r = r1
                     sig = crash_signature(r["out"])
                     break
+        if (pr.get("tag_sweep") and len(pr["tag_sweep"]) > 1) or (pr.get("enum_shape") and len(pr["enum_shape"][1]) > 1):
+            # shrink: one tagged field / one use of the enum that alone reproduces the outcome (a run that takes ten
+            # times the slowest regular run of this session counts as the hang reproduced)
+            limit = TIMEOUT if c != "hang" else int(min(TIMEOUT, max(20, 10 * max([r0["wall"] for _, c0, r0 in outcomes if c0 != "hang"] or [2]))))
+            if pr.get("tag_sweep"):
+                cands = [dict(pr, source=tag_file(9999, [fld]), tag_sweep=[fld]) for fld in pr["tag_sweep"]]
+            else:
+                cands = []
+                for role in pr["enum_shape"][1]:
+                    src1, files1 = enum_project(9999, pr["enum_shape"][0], [role], "single")
+                    cands.append(dict(pr, source=src1, files=files1, layout="single", enum_shape=[pr["enum_shape"][0], [role]]))
+            for cand in cands:
+                d = os.path.join(moddir, "shrink")
+                shutil.rmtree(d, ignore_errors=True)
+                write_project(d, cand)
+                r1 = P.run_cli_one({"dir": d, "args": pr["command"] + ["-c", "gleece.config.json"], "timeout": limit})
+                if classify(r1) == c and (c == "hang" or crash_signature(r1["out"]) == sig):
+                    pr, r = cand, r1
+                    break
         if pr.get("multi_controller") and c in ("crash", "silent-failure", "hang"):
             # shrink: drop controllers and receivers while the outcome class and signature stay
             last = {}
@@ -1030,7 +1247,7 @@ def main():
                        "input": {"source": pr["source"], "files": pr.get("files") or {}, "aux": pr.get("aux") or {},
                                  "config": pr["config"], "command": pr["command"]},
                        "shape": dict((f, pr[f]) for f in ("layout", "single_use", "single_annotation", "param_sweep",
-                                                          "multi_controller", "template_kind") if f in pr),
+                                                          "multi_controller", "template_kind", "tag_sweep", "enum_shape", "openapi") if f in pr),
                        "cli_exit": r["exit"], "cli_output": r["out"][-3000:], "wall_s": r["wall"],
                        "claim": "the command exits 0 or exits non-zero with a message; it never panics or hangs"})
     seq_reported = 0
@@ -1039,10 +1256,7 @@ def main():
         o = obs[bad]
         c = "hang" if o["timed_out"] else "crash" if o["panicked"] else "silent-failure"
         sig = o["panic"] or o["detail"][-200:] or "no error and no artifact"
-        hit = None
-        for f in known:
-            if f.get("match", {}).get("signature") and f["match"]["signature"] in sig:
-                hit = f
+        hit = known_hit(known, pr, sig)
         if hit:
             res.known(hit, "%s (%s)" % (hit.get("title", ""), sig[:120]))
             continue
@@ -1077,6 +1291,11 @@ def main():
                                      for cl in set((pr.get("multi_controller") or {}).get("class") for pr in projects) if cl},
         "multi_controller_outcomes": {cl: sum(1 for k, c, r in outcomes if k >= 0 and projects[k].get("multi_controller") and c == cl)
                                       for cl in classes},
+        "tag_sweep": {"projects": sum(1 for pr in projects if pr.get("tag_sweep")),
+                      "tags": len(set(f[1] for pr in projects for f in pr.get("tag_sweep") or [])),
+                      "outcomes": {cl: sum(1 for k, c, r in outcomes if k >= 0 and projects[k].get("tag_sweep") and c == cl) for cl in classes}},
+        "enum_shape_outcomes": dict(("%s / %s" % (projects[k]["enum_shape"][0], "+".join(projects[k]["enum_shape"][1]) if len(projects[k]["enum_shape"][1]) == 1 else "all roles"), c)
+                                    for k, c, r in outcomes if k >= 0 and projects[k].get("enum_shape")),
         "template_entry_outcomes": dict((projects[k]["template_kind"][0], c) for k, c, r in outcomes
                                         if k >= 0 and projects[k].get("template_kind")),
         "evaluations": len(jobs) + sum(len(o) for o in seq_obs), "distinct_nontrivial": len(set(projects[k]["source"] + json.dumps(projects[k].get("files") or {}, sort_keys=True)
@@ -1094,7 +1313,12 @@ def main():
                 "slashes, in one file or one per controller; templateExtensions / templateOverrides entries of every "
                 "kind (unknown name, unreadable file, directory, hostile template text, valid); and histories of ONE "
                 "process (implrun genseq): every kind of rejected generation first, then generations that go through, "
-                "plus random mixes, over the five engines - Outcome.prop_C14_seq on every history" % TIMEOUT,
+                "plus random mixes, over the five engines - Outcome.prop_C14_seq on every history; model structs whose "
+                "field tags carry foreign keys (keys that end in / start with json or validate, several of them, in every "
+                "order around the real key) or are not in the conventional key:\"value\" form, for both OpenAPI versions; "
+                "enums declared by every legal shape of constant spec (several names per spec, iota blocks with blanks / "
+                "expressions / several names, implicit repetition, values split over declarations and files, converted "
+                "untyped values, interleaved enums, local constants) reached as parameter, result and model field" % TIMEOUT,
         "samples": [{"command": projects[idx[0]]["command"], "config_kind": projects[idx[0]].get("config_kind"),
                      "source": projects[idx[0]]["source"][:1500], "class": outcomes[0][1]}] if idx and idx[0] >= 0 else [],
         "property_oracle_failures": len(propfail),
@@ -1110,6 +1334,30 @@ def main():
                         "anywhere is a violation with the project as replay"]
     shutil.rmtree(os.path.join(WORK, PROP), ignore_errors=True)
     sys.exit(res.finish())
+
+
+def self_including_template(pr):
+    """The project configures a template extension whose text includes the very extension point it is registered as."""
+    try:
+        exts = (json.loads(pr.get("config") or "{}").get("routesConfig") or {}).get("templateExtensions") or {}
+    except ValueError:
+        return False
+    for name, path in exts.items():
+        text = (pr.get("aux") or {}).get(str(path).lstrip("./"), "")
+        if name and re.search(r"\{\{>\s*%s\s*\}\}" % re.escape(name), text):
+            return True
+    return False
+
+
+def known_hit(known, pr, sig):
+    for f in known:
+        mt = f.get("match", {})
+        if mt.get("class") == "self-including-template-extension":
+            if self_including_template(pr):
+                return f
+        elif mt.get("signature") and mt["signature"] in sig:
+            return f
+    return None
 
 
 def crash_signature(out):
